@@ -39,7 +39,7 @@ def cli_rows(ctx, n, maxlen):
     evs = []
     for j, k in enumerate((3, 4, 5, 6, 7)):
         fa = ctx.path("cli_k%d.fa" % k)
-        vlib.kvh(["gen", "fasta", ctx.seed * 100 + k, n, maxlen, fa])
+        vlib.kvh(["gen", "fasta", ctx.seed * 100 + k, n, maxlen, fa, "ratio%d" % k])
         for counts in (False, True):
             preset = list(DELIM)[(j + counts) % 3]
             out = ctx.path("cli_k%d_%d.out" % (k, counts))
@@ -70,6 +70,16 @@ def run(ctx):
     for k, L in plan:
         if not mc(ctx, k, L):
             return
+    # records of millions of bases, described by run lengths: the count from the runs is the declarative count (lemma, TLC) ...
+    env = {"VRUNS": 3, "VEXTRA": 3 if ctx.thorough() else 2, "VK": 4 if ctx.thorough() else 3}
+    r = vlib.tlc("MCRunLength", env=env, rundir=ctx.rundir, timeout=3000)
+    ctx.add_mc("lemma RleAgrees: run-length count = declarative count, <=%(VRUNS)s runs, lengths k..k+%(VEXTRA)s, k<=%(VK)s" % env, r)
+    if r.violated:
+        raise vlib.ToolError("the run-length lemma does not hold on the specification itself: " + str(r.violated))
+    # ... and the rows of a 17-million-base record (more than 2^24 windows), a 65 700-base record and a short one
+    b = ctx.path("big_rows.ndjson")
+    vlib.kvh(["trace", "oligobig", ctx.seed, 1, ctx.rundir], out=b)
+    fc.validate(ctx, b, "rows of records given by run lengths (17 million bases: totals beyond 2^24, counts beyond 2^23), k=1,2,3,5,8", "obig")
     t = ctx.path("lib_rows.ndjson")
     vlib.kvh(["trace", "oligo", ctx.seed, 40 if ctx.thorough() else 10, 600 if ctx.thorough() else 300, ctx.rundir], out=t)
     fc.validate(ctx, t, "library file API rows k=1..8 raw+norm", "orec")
@@ -78,7 +88,7 @@ def run(ctx):
     fc.validate(ctx, c, "CLI rows k=3..7 counts/default", "orec")
     # Python binding (vectorise_one), same records, same judge
     fa = ctx.path("py.fa")
-    vlib.kvh(["gen", "fasta", ctx.seed + 7, 10, 300, fa])
+    vlib.kvh(["gen", "fasta", ctx.seed + 7, 10, 300, fa, "ratio1"])
     pe = ctx.path("py_rows.ndjson")
     fc.pydriver(ctx, ["oligo", fa, 1, 8], pe)
     fc.validate(ctx, pe, "python vectorise_one k=1..8 raw+norm", "orec")
